@@ -8,6 +8,7 @@ use tracing_core::field::{Field, Visit};
 use tracing_core::span::{Attributes, Current, Id, Record};
 use tracing_core::{dispatch, Collect, Dispatch, Event, LevelFilter, Metadata};
 use tracing_log::{LogTracer, NormalizeEvent};
+// (format_trace is called by path)
 
 struct Rng(u64);
 impl Rng {
@@ -140,9 +141,11 @@ fn main() {
                 };
                 let mut b = log::Record::builder();
                 b.level(LEVELS[level]).target(&target).file(file.as_deref()).line(line).module_path(module.as_deref());
+                // both public doors of the bridge: the logger, then format_trace
                 let go = |r: &log::Record<'_>| {
                     let en = logger.enabled(r.metadata());
                     logger.log(r);
+                    let _ = tracing_log::format_trace(r);
                     en
                 };
                 let en = match k {
@@ -154,7 +157,7 @@ fn main() {
                 let got: Vec<Got> = std::mem::take(&mut *GOT.lock().unwrap());
                 events += got.len() as u64;
                 let ok = en == expect
-                    && got.len() == expect as usize
+                    && got.len() == 2 * expect as usize
                     && got.iter().all(|g| {
                         g.is_log
                             && g.message.as_deref() == Some(text.as_str())
